@@ -137,6 +137,19 @@ theorem adjustRules_denomsOf (add rpb : CoinList) (p q : Pool) (h : q.rules = ad
     denomsOfPool q = denomsOfPool p := by
   unfold denomsOfPool; rw [h]; exact adjustRules_denoms _ _ _
 
+theorem adjustCore_frame {s s' : State} {id : PoolId} {p1 : Pool} {sh : Int} {st : Bool} {add rpb : CoinList}
+    (hp : getPool s id = some p1) (h : adjustCore s id p1 sh st add rpb = .ok s') : Frame s s' := by
+  unfold adjustCore at h
+  split at h; · cases h
+  split at h; · cases h
+  split at h
+  · cases h
+    exact ⟨rfl, rfl, evolve_set hp rfl (adjustRules_denomsOf _ _ _ _ rfl)⟩
+  · rename_i ah _ _ _
+    cases h
+    refine Frame.trans (b := setPool (dequeue s id p1.endH) id _) ?_ (enqueue_frame _ _ _)
+    exact ⟨rfl, rfl, evolve_set (s := s) hp rfl (adjustRules_denomsOf _ _ _ _ rfl)⟩
+
 theorem adjustPool_frame {s s' : State} {sender id add rpb} (h : stepAdjustPool s sender id add rpb = .ok s') : Frame s s' := by
   obtain ⟨p, _, _, _, hp, hat⟩ := stepAdjustPool_ok h
   obtain ⟨s1, p1, s2, _, _, _, _, _, hu, _, h2, hcore⟩ := adjustPoolAt_ok hat
@@ -145,23 +158,13 @@ theorem adjustPool_frame {s s' : State} {sender id add rpb} (h : stepAdjustPool 
   have b2 := (sendAll_ok h2).1
   have hp2 : getPool s2 id = some p1 := by
     unfold getPool; rw [b2.pools]; exact getPool_set_self _ _ _ _ ok.pools
-  refine (f1.trans b2.frame).trans ?_
-  unfold adjustCore at hcore
-  split at hcore; · cases hcore
-  split at hcore; · cases hcore
-  split at hcore
-  · cases hcore
-    exact ⟨rfl, rfl, evolve_set hp2 rfl (adjustRules_denomsOf _ _ _ _ rfl)⟩
-  · rename_i ah _ _ _
-    cases hcore
-    refine Frame.trans (b := setPool (dequeue s2 id p1.endH) id _) ?_ (enqueue_frame _ _ _)
-    exact ⟨rfl, rfl, evolve_set (s := s2) hp2 rfl (adjustRules_denomsOf _ _ _ _ rfl)⟩
+  exact (f1.trans b2.frame).trans (adjustCore_frame hp2 hcore)
 
 /-! ### the ledger invariant -/
 
 /-- operations that leave farmers and ledger alone keep the ledger invariant -/
 theorem ledgerInv_frame {s s' : State} (fr : Frame s s') (hfp : FarmerPool s) (h : LedgerInv s) : LedgerInv s' := by
-  refine ⟨fun k => by unfold C06.Fair at *; rw [fr.ledger]; exact h.fair k, ?_⟩
+  refine ⟨fun k => by show C06.LedgerFair _; rw [fr.ledger]; exact h.fair k, ?_⟩
   intro a id f p' hf hp' r' hr'
   unfold getFarmer at hf; rw [fr.farmers] at hf
   obtain ⟨p, hp⟩ := hfp a id f hf
@@ -214,13 +217,13 @@ theorem ledgerInv_interaction {s s' : State} {a : Addr} {id : PoolId} {p p1 : Po
       rw [bookLedger_self _ _ _ _ _ _ r hn hr]
       apply fair_bookOne (hl.fair _)
       obtain ⟨_, hrw, _⟩ := hspec r hr
-      rw [hrw, ← holddebt r hr]
+      rw [hrw]
       have hnn' := hnn r hr
       split
-      · rw [tdiv_prec_nonneg (Int.mul_nonneg hnn' (Int.natCast_nonneg _))]
+      · rw [tdiv_prec_nonneg (Int.mul_nonneg hnn' (Int.natCast_nonneg _)), holddebt r hr]
       · rename_i hz
         have : f0.locked = 0 := by omega
-        rw [this]; simp [amountOf_zero_locked]
+        rw [this]; simp
     · rw [bookLedger_other _ _ _ _ _ _ k (fun r hr e => hk ⟨r, hr, e⟩)]
       exact hl.fair k
   · -- the marks behind every recorded debt
@@ -261,5 +264,119 @@ theorem ledgerInv_interaction {s s' : State} {a : Addr} {id : PoolId} {p p1 : Po
         exact hl.mark a2 id f2 p hf2' hp r0 hr0
       · rw [hother id2 e] at hp2
         exact hl.mark a2 id2 f2 p2 hf2' hp2 r2 hr2
+
+end Irismod.Proofs.Farm
+
+namespace Irismod.Proofs.Farm
+open Irismod Irismod.Sdk Irismod.Farm Irismod.Spec
+
+theorem unstakePool_ledger {s s1 : State} {id : PoolId} {p p1 : Pool} {amt : Nat}
+    (h : unstakePool s id p amt = (s1, .ok p1)) :
+    s1.ledger = s.ledger ∧ denomsOfPool p1 = denomsOfPool p := by
+  unfold unstakePool at h
+  split at h
+  · simp only [Prod.mk.injEq, Except.ok.injEq] at h
+    obtain ⟨e1, e2⟩ := h
+    subst e1 e2
+    exact ⟨rfl, rfl⟩
+  · have ok := updatePool_ok h
+    exact ⟨ok.ledger, updOk_denoms ok⟩
+
+theorem ledgerInv_stake {s s' : State} {sender id denom amt} (hi : Inv s) (hl : LedgerInv s)
+    (h : stepStake s sender id denom amt = .ok s') : LedgerInv s' := by
+  obtain ⟨p, s1, s2, p1, rewards, debt, s3, _, hp, _, _, _, h1, hupd, hc, h3, rfl⟩ := stepStake_ok h
+  have b1 := (sendAll_ok h1).1
+  have ok := updatePool_ok hupd
+  have b3 := (payRewards_ok h3).1
+  have w1 := updOk_wf ok (hi.core.wf id p hp)
+  have hpl : s3.pools = AMap.set s.pools id p1 := by rw [b3.pools, ok.pools, b1.pools]
+  refine ledgerInv_interaction (p := p) (p1 := p1) (δ := (amt : Int))
+    (g := some { locked := ((getFarmer s sender id).getD { locked := 0, debt := [] }).locked + amt, debt := debt })
+    hl hi.core.fpool hp (updOk_denoms ok) w1.nodup w1.rpsNN hc (by omega) ?_ ?_ ?_ ?_
+  · exact getPool_set_self _ _ _ _ hpl
+  · intro id2 e; exact getPool_set_other s _ id id2 p1 hpl e
+  · show bookLedger s3.ledger _ _ _ _ _ = _; rw [b3.ledger, ok.ledger, b1.ledger]
+  · right
+    refine ⟨_, rfl, ?_, rfl, by push_cast; rfl⟩
+    show AMap.set s3.farmers _ _ = _; rw [b3.farmers, ok.farmers, b1.farmers]
+
+theorem ledgerInv_harvest {s s' : State} {sender id} (hi : Inv s) (hl : LedgerInv s)
+    (h : stepHarvest s sender id = .ok s') : LedgerInv s' := by
+  obtain ⟨p, f, s1, p1, rewards, debt, s2, _, hp, _, hf, hupd, hc, h2, rfl⟩ := stepHarvest_ok h
+  have ok := updatePool_ok hupd
+  have b2 := (payRewards_ok h2).1
+  have w1 := updOk_wf ok (hi.core.wf id p hp)
+  have hpl : s2.pools = AMap.set s.pools id p1 := by rw [b2.pools, ok.pools]
+  have hf0 : (getFarmer s sender id).getD { locked := 0, debt := [] } = f := by rw [hf]; rfl
+  refine ledgerInv_interaction (p := p) (p1 := p1) (δ := 0) (g := some { f with debt := debt })
+    hl hi.core.fpool hp (updOk_denoms ok) w1.nodup w1.rpsNN (by rw [hf0]; exact hc) (by omega) ?_ ?_ ?_ ?_
+  · exact getPool_set_self _ _ _ _ hpl
+  · intro id2 e; exact getPool_set_other s _ id id2 p1 hpl e
+  · show bookLedger s2.ledger _ _ _ _ _ = _; rw [b2.ledger, ok.ledger, hf0]
+  · right
+    refine ⟨_, rfl, ?_, rfl, by rw [hf0]; simp⟩
+    show AMap.set s2.farmers _ _ = _; rw [b2.farmers, ok.farmers]
+
+theorem ledgerInv_unstake {s s' : State} {sender id denom amt} (hi : Inv s) (hl : LedgerInv s)
+    (h : stepUnstake s sender id denom amt = .ok s') : LedgerInv s' := by
+  obtain ⟨p, f, s1, p1, s2, rewards, debt, s3, _, hp, _, hf, hamt, hamt2, hbr, h2, hc, h3, rfl⟩ := stepUnstake_ok h
+  obtain ⟨c1, hp1, _, _⟩ := unstakePool_core hi.core hp hamt2 hbr
+  obtain ⟨hpl0, hfm, _⟩ := unstakePool_ok hamt2 hbr
+  obtain ⟨hlg, hden⟩ := unstakePool_ledger hbr
+  have b2 := (sendAll_ok h2).1
+  have b3 := (payRewards_ok h3).1
+  have w1 := c1.wf id p1 hp1
+  have hpl : s3.pools = AMap.set s.pools id p1 := by rw [b3.pools, b2.pools, hpl0]
+  have hf0 : (getFarmer s sender id).getD { locked := 0, debt := [] } = f := by rw [hf]; rfl
+  by_cases hz : f.locked - amt = 0
+  · simp only [hz, if_true]
+    refine ledgerInv_interaction (p := p) (p1 := p1) (δ := -(amt : Int)) (g := none)
+      hl hi.core.fpool hp hden w1.nodup w1.rpsNN (by rw [hf0]; exact hc) (by rw [hf0]; omega) ?_ ?_ ?_ ?_
+    · exact getPool_set_self _ _ _ _ hpl
+    · intro id2 e; exact getPool_set_other s _ id id2 p1 hpl e
+    · show bookLedger s3.ledger _ _ _ _ _ = _; rw [b3.ledger, b2.ledger, hlg, hf0]
+    · left
+      refine ⟨rfl, ?_⟩
+      show AMap.erase s3.farmers _ = _; rw [b3.farmers, b2.farmers, hfm]
+  · simp only [hz, if_false]
+    refine ledgerInv_interaction (p := p) (p1 := p1) (δ := -(amt : Int)) (g := some { locked := f.locked - amt, debt := debt })
+      hl hi.core.fpool hp hden w1.nodup w1.rpsNN (by rw [hf0]; exact hc) (by rw [hf0]; omega) ?_ ?_ ?_ ?_
+    · exact getPool_set_self _ _ _ _ hpl
+    · intro id2 e; exact getPool_set_other s _ id id2 p1 hpl e
+    · show bookLedger s3.ledger _ _ _ _ _ = _; rw [b3.ledger, b2.ledger, hlg, hf0]
+    · right
+      refine ⟨_, rfl, ?_, rfl, by rw [hf0]; simp only; omega⟩
+      show AMap.set s3.farmers _ _ = _; rw [b3.farmers, b2.farmers, hfm]
+
+theorem ledgerInv_stepMsg {s s' : State} {op : Op} (hi : Inv s) (hl : LedgerInv s) (h : stepMsg s op = .ok s') :
+    LedgerInv s' := by
+  cases op with
+  | createPool sender desc lpt start rpb total editable => exact ledgerInv_frame (createPool_frame h) hi.core.fpool hl
+  | destroyPool sender id => exact ledgerInv_frame (destroyPool_frame h) hi.core.fpool hl
+  | adjustPool sender id add rpb => exact ledgerInv_frame (adjustPool_frame h) hi.core.fpool hl
+  | stake sender id denom amt => exact ledgerInv_stake hi hl h
+  | unstake sender id denom amt => exact ledgerInv_unstake hi hl h
+  | harvest sender id => exact ledgerInv_harvest hi hl h
+  | endBlocks n => simp [stepMsg] at h; subst h; exact hl
+
+theorem ledgerInv_apply (s : State) (op : Op) (hi : Inv s) (hl : LedgerInv s) : LedgerInv (apply s op) := by
+  rcases apply_cases s op with ⟨n, _, h⟩ | h | ⟨h, _, _⟩
+  · rw [h]; exact ledgerInv_frame (endBlocks_frame n s) hi.core.fpool hl
+  · rw [h]; exact hl
+  · exact ledgerInv_stepMsg hi hl h
+
+theorem ledgerInv_run : ∀ (ops : List Op) (s : State), Inv s → Clean s ops → LedgerInv s → LedgerInv (run s ops)
+  | [], _, _, _, hl => hl
+  | op :: ops, s, hi, hc, hl => by
+    show LedgerInv (run (apply s op) ops)
+    exact ledgerInv_run ops _ (inv_apply s op hi hc.1) hc.2 (ledgerInv_apply s op hi hl)
+
+theorem ledgerInv_genesis {s : State} (hg : C05.Genesis s) : LedgerInv s := by
+  obtain ⟨_, hf, _, hlg, _⟩ := hg
+  refine ⟨?_, ?_⟩
+  · intro k
+    show C06.LedgerFair (AMap.getD s.ledger k {})
+    rw [hlg]; exact ledgerFair_default
+  · intro a id f p h; unfold getFarmer at h; rw [hf] at h; cases h
 
 end Irismod.Proofs.Farm
